@@ -1060,3 +1060,52 @@ def truncated_piece_lists():
 MULTIBYTE_BEFORE_ERROR = [b"SELECT '\xc3\xa9' FROM FROM", b"SELECT 1\nFROM `\xe6\x97\xa5\xe6\x9c\xac\xe8\xaa\x9e` WHERE", b"SELECT /* \xf0\x9f\x98\x80 */ )",
                           b"SELECT \"\xc3\xa9\xc3\xa9\" AS a, 'x' y z", b"-- \xc3\xa9\nSELECT '\xe2\x82\xac' + ) FROM t", b"SELECT `\xc3\xa9`.`\xf0\x9f\x98\x80` FROM (",
                           b"CREATE TABLE `t\xc3\xa9` (a INT64) PRIMARY (a)", b"SELECT '\xc3\xa9';\nSELECT '\xc3\xa9\xc3\xa9' 1 2"]
+
+
+# ---------------------------------------------------------------- the statement family of Parse/StmtModel.v
+STMT_WORDS = [b"DROP", b"CREATE", b"ANALYZE", b"TABLE", b"INDEX", b"SEARCH", b"VECTOR", b"SCHEMA", b"DATABASE", b"VIEW", b"ROLE", b"SEQUENCE", b"MODEL",
+              b"CHANGE", b"STREAM", b"PROPERTY", b"GRAPH", b"PROTO", b"BUNDLE", b"LOCALITY", b"GROUP", b"IF", b"EXISTS", b"a", b"a.b", b"`x y`", b"`TABLE`", b";", b"1", b".", b"drop", b"table"]
+STMT_VALID = ["DROP SCHEMA s", "DROP LOCALITY GROUP g", "DROP PROTO BUNDLE", "DROP TABLE t", "DROP TABLE IF EXISTS a.b.c", "DROP INDEX i", "DROP INDEX IF EXISTS s.i",
+              "DROP SEARCH INDEX i", "DROP SEARCH INDEX IF EXISTS i", "DROP VECTOR INDEX v", "DROP VECTOR INDEX IF EXISTS v", "DROP SEQUENCE s", "DROP SEQUENCE IF EXISTS a.s",
+              "DROP VIEW v", "DROP VIEW a.v", "DROP ROLE r", "DROP CHANGE STREAM cs", "DROP MODEL m", "DROP MODEL IF EXISTS m", "DROP PROPERTY GRAPH g",
+              "DROP PROPERTY GRAPH IF EXISTS g", "ANALYZE", "CREATE SCHEMA s", "CREATE DATABASE d", "drop table `select`", "Drop Table If Exists `a b`.`c`"]
+
+
+def stmt_family_cases(rnd, quick):
+    """inputs for the statement-family model: every sequence of <= 3 (4) words of its vocabulary, the valid forms, every truncation / deletion /
+    duplication / replacement of them, and ';'-joined lists of such pieces (empty statements, trailing separators, comments)"""
+    import itertools
+    single = set()
+    for n in range(0, (3 if quick else 4) + 1):
+        for seq in itertools.product(STMT_WORDS, repeat=n):
+            single.add(b" ".join(seq))
+    pieces = set()
+    for v in STMT_VALID:
+        toks = v.encode().split(b" ")
+        pieces.add(v.encode())
+        for i in range(len(toks) + 1):
+            pieces.add(b" ".join(toks[:i]))
+            if i < len(toks):
+                pieces.add(b" ".join(toks[:i] + toks[i + 1:]))
+                pieces.add(b" ".join(toks[:i] + [toks[i]] + toks[i:]))
+                for w in (b"1", b"IF", b"`TABLE`", b".", b"x", b"(", b"/*c*/"):
+                    pieces.add(b" ".join(toks[:i] + [w] + toks[i + 1:]))
+                    pieces.add(b" ".join(toks[:i] + [w] + toks[i:]))
+    single |= pieces
+    pl = sorted(pieces)
+    lists = set()
+    seps = [b";", b"; ", b" ;\n", b";;", b"; /*c*/ ;", b";\n-- x\n"]
+    for _ in range(3000 if quick else 60000):
+        k = rnd.randrange(0, 5)
+        parts = [rnd.choice(pl) if rnd.random() < 0.5 else rnd.choice(STMT_VALID).encode() for _ in range(k)]
+        s_ = b""
+        for part in parts:
+            s_ += part + rnd.choice(seps)
+        if rnd.random() < 0.5:
+            s_ += rnd.choice(STMT_VALID).encode()
+        lists.add(rnd.choice([b"", b" ", b"\n"]) + s_)
+    for v in STMT_VALID:
+        for w in STMT_VALID[:6]:
+            lists.add(v.encode() + b";" + w.encode())
+            lists.add(v.encode() + b" ; " + w.encode() + b";")
+    return sorted(single), sorted(lists)
